@@ -9,6 +9,11 @@
     unsafe.Pointer node anywhere in [v] (the domain of the property). *)
 From Coq Require Import ZArith List Bool.
 From Low Require Import Model.Size Spec.SizeSpec Proofs.SizeProofs.
+From Low Require Import Model.SizeFmt Model.SizeStat Spec.SizeStatSpec Proofs.SizeStatProofs.
+From Coq Require Import Permutation.
+From Low Require Import Proofs.SizeStatOrderProofs Proofs.SizeFmtProofs Spec.SizeStatOrderSpec Proofs.SizeStatOrderDeep.
+From Low Require Import Model.TypeHelper Spec.TypeHelperSpec Proofs.TypeHelperProofs.
+From Low Require Import Model.SizeGraph Spec.SizeGraphSpec Proofs.SizeGraphProofs.
 Import ListNotations.
 Open Scope Z_scope.
 
@@ -78,4 +83,244 @@ Example C20_nonvacuous :
              VStruct [VMap []; VPtr (Some (VScalar KComplex128)); VIface None; VSlice None; VArray []]]) in
   supported v /\ sizeof v = Some 196 /\ spec_size v = 196 /\
   StatFirst (Some v) 3 100 = Some (Some 196) /\ Of None = Some 0.
+Proof. vm_compute. repeat split; reflexivity. Qed.
+
+(** ------------------------------------------------------------------------
+    WIDENING 1: the whole report of size.Stat.
+
+    Model: Model/SizeStat.v ([stat]: the recursion on [depth], the three loops
+    with their [maxItem] exits, prefixes put on the first line of each
+    sub-report, one more indentation of all but the first line at every level)
+    over values LABELLED with the type texts, field names and map-key texts
+    that Go's reflect / fmt supply.  Specification: Spec/SizeStatSpec.v (the
+    complete pre-order [listing] of the nodes; an entry is [visible] when its
+    level is <= depth and every item index on its path is < maxItem; each
+    visible entry is [render]ed on its own from its level, label, type and
+    STRUCTURAL SUM).  Unbounded in the size and nesting of the value, any
+    [depth] and [maxItem] in Z (negative depth = no limit), any options.
+    Map entries are listed in the order of [LMap] (Go: the random order of
+    MapKeys; see Run/C20.v for what is compared). *)
+
+(** the report is the rendering of the visible entries, line for line *)
+Theorem C20_Stat_report : forall data depth maxItem o,
+  match data with Some v => lsupported v | None => True end ->
+  StatLines data depth maxItem o = Some (spec_lines data depth maxItem o).
+Proof. exact Stat_report. Qed.
+Print Assumptions C20_Stat_report.
+
+(** ... and the returned string is these lines joined by newlines *)
+Theorem C20_Stat_text : forall data depth maxItem o,
+  match data with Some v => lsupported v | None => True end ->
+  StatText data depth maxItem o = Some (spec_text data depth maxItem o).
+Proof. exact StatText_report. Qed.
+Print Assumptions C20_Stat_text.
+
+(** the variadic options: only the first one counts; a first option that is not an Opt panics *)
+Theorem C20_Stat_opts : forall data depth maxItem opts,
+  match data with Some v => lsupported v | None => True end ->
+  StatOpts data depth maxItem opts = spec_opts data depth maxItem opts.
+Proof. exact StatOpts_report. Qed.
+Print Assumptions C20_Stat_opts.
+
+(** the first line is "<type>: <n>" with n the number [Of] returns for the same value *)
+Theorem C20_Stat_first_line_text : forall v depth maxItem n,
+  lsupported v -> Of (Some (erase v)) = Some n ->
+  exists rest, StatLines (Some v) depth maxItem no_opt = Some ((ty_of v ++ s_colon ++ dec n) :: rest).
+Proof. exact Stat_first_line_text. Qed.
+Print Assumptions C20_Stat_first_line_text.
+
+(** depth 0: one line *)
+Theorem C20_Stat_depth0 : forall v maxItem o,
+  lsupported v -> StatLines (Some v) 0 maxItem o = Some [hdr o v].
+Proof. exact Stat_depth0. Qed.
+Print Assumptions C20_Stat_depth0.
+
+(** negative depth and maxItem above every item index: every node of the value has its line *)
+Theorem C20_Stat_complete : forall v depth maxItem o,
+  lsupported v -> depth < 0 ->
+  (forall e, In e (listing v 0 [] []) -> forallb (fun i => i <? maxItem) (e_idxs e) = true) ->
+  StatLines (Some v) depth maxItem o = Some (map (render o) (listing v 0 [] [])).
+Proof. exact Stat_complete. Qed.
+Print Assumptions C20_Stat_complete.
+
+(** the order in which MapKeys() hands out the keys of a (completely listed) map only permutes
+    the blocks of the report ... *)
+Theorem C20_Stat_map_order : forall ty kvs kvs' depth maxItem o,
+  Permutation kvs kvs' -> Z.of_nat (length kvs) <= maxItem ->
+  Permutation (spec_lines (Some (LMap ty kvs)) depth maxItem o)
+              (spec_lines (Some (LMap ty kvs')) depth maxItem o).
+Proof. exact Stat_map_order. Qed.
+Print Assumptions C20_Stat_map_order.
+
+(** ... and the sorted lines (what size.Stat/sorted compares) do not depend on it.
+    Stated for a map at the top; the blocks below it are arbitrary values. *)
+Theorem C20_Stat_sorted_map_order : forall ty kvs kvs' depth maxItem o,
+  Permutation kvs kvs' -> Z.of_nat (length kvs) <= maxItem ->
+  sort_lines (spec_lines (Some (LMap ty kvs)) depth maxItem o) =
+  sort_lines (spec_lines (Some (LMap ty kvs')) depth maxItem o).
+Proof. exact Stat_sorted_map_order. Qed.
+Print Assumptions C20_Stat_sorted_map_order.
+
+(** the same for maps at ANY depth: [sim v v'] = the same labelled value up to the order of the
+    entries of its maps; [maps_le maxItem v] = no map of v has more than maxItem entries *)
+Theorem C20_Stat_map_order_deep : forall v v' depth maxItem o,
+  sim v v' -> maps_le maxItem v = true ->
+  Permutation (spec_lines (Some v) depth maxItem o) (spec_lines (Some v') depth maxItem o).
+Proof. exact Stat_map_order_deep. Qed.
+Print Assumptions C20_Stat_map_order_deep.
+
+Theorem C20_Stat_sorted_map_order_deep : forall v v' depth maxItem o,
+  sim v v' -> maps_le maxItem v = true ->
+  sort_lines (spec_lines (Some v) depth maxItem o) = sort_lines (spec_lines (Some v') depth maxItem o).
+Proof. exact Stat_sorted_map_order_deep. Qed.
+Print Assumptions C20_Stat_sorted_map_order_deep.
+
+Example C20_Stat_order_nonvacuous :
+  let i8 := LScalar [105; 56] KInt8 in
+  let ea := ([97], VString [97], i8) in
+  let eb := ([98], VString [98], LString [115] [1; 2]) in
+  let v := LStruct [84] [([102], LMap [77] [ea; eb])] in
+  let v' := LStruct [84] [([102], LMap [77] [eb; ea])] in
+  sim v v' /\ maps_le 2 v = true /\
+  nth 2 (spec_lines (Some v) (-1) 2 no_opt) [] = [32; 32; 32; 32; 32; 32; 32; 32; 97; 58; 32; 105; 56; 58; 32; 49] /\
+  nth 2 (spec_lines (Some v') (-1) 2 no_opt) [] = [32; 32; 32; 32; 32; 32; 32; 32; 98; 58; 32; 115; 58; 32; 49; 56] /\
+  sort_lines (spec_lines (Some v) (-1) 2 no_opt) = sort_lines (spec_lines (Some v') (-1) 2 no_opt).
+Proof.
+  cbv zeta. split.
+  - apply sim_struct. constructor; [|constructor]. split; [reflexivity|]. cbn [snd].
+    eapply sim_map; [|apply perm_swap].
+    constructor; [split; [reflexivity|apply sim_scalar]|].
+    constructor; [split; [reflexivity|apply sim_string]|constructor].
+  - vm_compute. repeat split; reflexivity.
+Qed.
+
+(** the average of a header line: with T the printed number in thousandths, s the size, n = AvgOf,
+    unit = unit_num / unit_den = 2^k (1 when AvgUnit = 0) and x = s / (n * unit) the exact quotient,
+        | T / 1000 - x |  <=  1/2000  +  x / 2^53
+    i.e. right to half a unit of the third decimal, plus the rounding of the one float64 division
+    (stated multiplied out by 2000 * 2^53 * n * unit_num; the model of the float arithmetic is exact for
+    s, n < 2^53, which is where float64(s) and float64(n) are exact) *)
+Theorem C20_Stat_avg_accuracy : forall s n k, 0 <= s -> 0 < n ->
+  let T := avg_thousandths s n k in
+  Z.abs (2 * 2 ^ 53 * T * n * unit_num k - 2000 * 2 ^ 53 * s * unit_den k)
+  <= 2 ^ 53 * n * unit_num k + 2000 * s * unit_den k.
+Proof. exact avg_accuracy. Qed.
+Print Assumptions C20_Stat_avg_accuracy.
+
+(** the digits printed for a size denote that size *)
+Theorem C20_Stat_decimal : forall n, 0 <= n < 10 ^ 40 -> digits_value (dec n) = n.
+Proof. exact dec_denotes. Qed.
+Print Assumptions C20_Stat_decimal.
+
+(** non-vacuity: struct{a []int32 (3 elements); p interface{} (nil); m map (1 entry)}, depth 2, maxItem 2:
+    8 lines (10 without limits); the third element of the slice is cut by maxItem *)
+Example C20_Stat_nonvacuous :
+  let i32 := LScalar [105; 51; 50] KInt32 in
+  let v := LStruct [84] [([97], LSlice [91; 93] (Some [i32; i32; i32]));
+                         ([112], LIface [73] None);
+                         ([109], LMap [77] [([107], VString [107], LPtr [42] (Some i32))])] in
+  lsupported v /\
+  StatLines (Some v) 2 2 no_opt = Some (spec_lines (Some v) 2 2 no_opt) /\
+  length (spec_lines (Some v) 2 2 no_opt) = 8%nat /\
+  length (spec_lines (Some v) (-1) 100 no_opt) = 10%nat /\
+  nth 3 (spec_lines (Some v) 2 2 no_opt) [] = [32; 32; 32; 32; 32; 32; 32; 32; 49; 58; 32; 105; 51; 50; 58; 32; 52] /\
+  StatText (Some i32) 5 5 {| avgOf := 3; avgUnit := Some (-3) |} =
+    Some [105; 51; 50; 58; 32; 52; 32; 47; 110; 32; 61; 32; 49; 48; 46; 54; 54; 55] /\
+  avg_thousandths 4 3 (Some (-3)) = 10667 /\ avg_thousandths 1 16 None = 62 /\ avg_thousandths 3 16 None = 188 /\
+  dec 658 = [54; 53; 56].
+Proof. vm_compute. repeat split; reflexivity. Qed.
+
+(** ------------------------------------------------------------------------
+    WIDENING 2: typehelper.ToSlice, the helper that turns any slice into a
+    []interface{} (users size the elements one by one, or the boxed slice).
+    Model: Model/TypeHelper.v (Kind test, make, index loop), generic in the
+    element representation and in [box] = what [Index(i).Interface()] makes
+    of an element.  Any length. *)
+
+(** a slice gives one slot per element, in order, each holding the boxed element;
+    anything else panics *)
+Theorem C20_ToSlice : forall (A B : Type) (box : A -> B) (arg : targ A),
+  ToSlice box arg = spec_ToSlice box arg.
+Proof. exact ToSlice_spec. Qed.
+Print Assumptions C20_ToSlice.
+
+Theorem C20_ToSlice_nth : forall (A B : Type) (box : A -> B) s rst i x,
+  ToSlice box (ArgSlice s) = Some rst -> nth_error s i = Some x ->
+  length rst = length s /\ nth_error rst i = Some (Some (box x)).
+Proof. exact ToSlice_length_nth. Qed.
+Print Assumptions C20_ToSlice_nth.
+
+(** size.Of of the result: slice header + per element an interface header and the element
+    (an element that is an interface already is handed over as it is) *)
+Theorem C20_ToSlice_size : forall l rst,
+  Forall supported l ->
+  ToSlice box_value (ArgSlice l) = Some rst ->
+  sizeof (slots_value rst) = Some (spec_ToSlice_size l).
+Proof. exact ToSlice_size. Qed.
+Print Assumptions C20_ToSlice_size.
+
+Theorem C20_ToSlice_size_plain : forall l,
+  Forall (fun x => match x with VIface _ => False | _ => True end) l ->
+  spec_ToSlice_size l = spec_size (VSlice (Some l)) + 16 * Z.of_nat (length l).
+Proof. exact ToSlice_size_plain. Qed.
+Print Assumptions C20_ToSlice_size_plain.
+
+Example C20_ToSlice_nonvacuous :
+  let l := [VString [97; 98]; VIface None; VIface (Some (VScalar KInt8)); VPtr (Some (VScalar KUint))] in
+  ToSlice box_value (ArgSlice l) =
+    Some [Some (VIface (Some (VString [97; 98]))); Some (VIface None); Some (VIface (Some (VScalar KInt8)));
+          Some (VIface (Some (VPtr (Some (VScalar KUint)))))] /\
+  spec_ToSlice_size l = 24 + (16 + 18) + 16 + 17 + (16 + 16) /\
+  ToSlice box_value (targ_of (Some (VArray l))) = None /\
+  ToSlice box_value (targ_of None) = None /\
+  ToSlice box_value (targ_of (Some (VSlice None))) = Some [].
+Proof. vm_compute. repeat split; reflexivity. Qed.
+
+(** ------------------------------------------------------------------------
+    WIDENING 3: values that SHARE pointers.  size.Of keeps no record of the
+    pointers it has followed: it is a TREE sum over the unfolding of the value,
+    and the same pointer reached twice is counted twice.  Model:
+    Model/SizeGraph.v (values with references [GRef a] into a heap of cells;
+    [gsizeof] = sizeof.go with [v.Elem()] of a reference reading the heap;
+    fuel = nesting of calls).  Specification: Spec/SizeGraphSpec.v ([unfold]:
+    every reference replaced by a pointer to a copy of the unfolded cell;
+    [ordered]: cell a refers to cells below a only, i.e. the heap is acyclic).
+    Any number of cells, references and nesting. *)
+
+(** whatever the sharing: the result is the structural sum of the tree unfolding *)
+Theorem C20_graph_tree_sum : forall h fuel v t,
+  unfold h fuel v = Some t -> supported t -> gsizeof h fuel v = Some (spec_size t).
+Proof. exact gsizeof_unfold. Qed.
+Print Assumptions C20_graph_tree_sum.
+
+(** the same pointer stored twice is counted twice: header and pointee, both times *)
+Theorem C20_graph_shared_counted_twice : forall h fuel a cell t,
+  nth_error h a = Some cell -> unfold h fuel cell = Some t -> supported t ->
+  gsizeof h (S (S fuel)) (GStruct [GRef a; GRef a]) = Some (2 * (8 + spec_size t)).
+Proof. exact shared_counted_twice. Qed.
+Print Assumptions C20_graph_shared_counted_twice.
+
+(** on an acyclic heap the recursion ends (within [enough_fuel] nested calls) with that sum *)
+Theorem C20_graph_acyclic_terminates : forall h v,
+  ordered h = true -> refs_below (length h) v = true ->
+  exists t, unfold h (enough_fuel h v) v = Some t /\
+            (supported t -> gsizeof h (enough_fuel h v) v = Some (spec_size t)).
+Proof. exact gsizeof_ordered. Qed.
+Print Assumptions C20_graph_acyclic_terminates.
+
+(** outside the domain: on a cyclic value (a struct holding a pointer to itself) the recursion
+    exhausts every fuel — the real code overflows its stack; C20 is about acyclic values *)
+Theorem C20_graph_cycle_diverges : forall fuel, gsizeof [GStruct [GRef 0]] fuel (GRef 0) = None.
+Proof. exact self_loop_diverges. Qed.
+Print Assumptions C20_graph_cycle_diverges.
+
+(** non-vacuity: a diamond (two struct cells sharing a string cell) reached twice = 4 copies of the string;
+    a cell that points to itself is not ordered and exhausts any fuel *)
+Example C20_graph_nonvacuous :
+  let h := [GString [97; 98; 99]; GStruct [GRef 0; GScalar KInt8]; GStruct [GRef 0; GRef 1]] in
+  let v := GSlice (Some [GRef 2; GRef 2]) in
+  ordered h = true /\ refs_below (length h) v = true /\
+  gsizeof h (enough_fuel h v) v = Some (24 + 2 * (8 + (8 + 19) + (8 + (8 + 19) + 1))) /\
+  option_map spec_size (unfold h (enough_fuel h v) v) = Some 166 /\
+  ordered [GStruct [GRef 0]] = false /\ gsizeof [GStruct [GRef 0]] 50 (GRef 0) = None.
 Proof. vm_compute. repeat split; reflexivity. Qed.
